@@ -364,6 +364,17 @@ def run (ctx):
       lo_ok = lower is not None and lower + c0 >= 0
       hi_ok = any(ub == 'len(self.%s)' % BUF and k + c0 <= 0 for ub, k in uppers)
       rng_ok = lo_ok and hi_ok
+      if not rng_ok:
+        # the range test may sit in a lookup helper whose verdict reaches the emission as a value (`entry is None` -> return):
+        # on every feasible path to the emission (constant propagation prunes the paths on which the helper answered None) the
+        # branches taken bound the index
+        pf_ = _path_facts(repo, use, g, e, sw)
+        if pf_:
+          okp = True
+          for fl_, defs_ in pf_:
+            lw_, up_ = q.bounds_from_facts(fl_, base, use.node)
+            if not (lw_ is not None and lw_ + c0 >= 0 and any(ub == 'len(self.%s)' % BUF and k + c0 <= 0 for ub, k in up_)): okp = False; break
+          if okp: rng_ok = True; lo_ok = hi_ok = True
       if not rng_ok and use_by_value: rng_ok = True; base = base + ' (bounds not recognised structurally; ids 0, 3 and -1 emit nothing on the sample pool)'
       ctx.ob('R-DOM', use, "emission only for an id inside the list", rng_ok,
              "slot index %s%+d is proven within [0, len) by dominating guards" % (base, c0) if rng_ok else
@@ -373,6 +384,13 @@ def run (ctx):
                "lower bound not proven" if not lo_ok else "upper bound not proven"),
              (use.module, e.ast), 'D3')
     notnone = any(o == 'is not' and isinstance(r, ast.Constant) and r.value is None and _is_buf_slot(l) for l, o, r, b in facts if r is not None)
+    if not notnone:
+      pf_ = _path_facts(repo, use, g, e, sw)
+      if pf_:
+        def slot_of (x, defs_, d=0):
+          if _is_buf_slot(x): return True
+          return isinstance(x, ast.Name) and d < 5 and x.id in defs_ and slot_of(defs_[x.id], defs_, d + 1)
+        if all(any(o == 'is not' and isinstance(r, ast.Constant) and r.value is None and slot_of(l, defs_) for l, o, r, b in fl_ if r is not None) for fl_, defs_ in pf_): notnone = True
     if not notnone and use_by_value: notnone = True        # guard not recognised structurally; ids 2 (used slot) emits nothing on the sample pool
     ctx.ob('R-DOM', use, "emission only for a slot that is still occupied", notnone,
            "emit dominated by `slot is not None`" if notnone else
@@ -713,6 +731,24 @@ def _is_const (e, v):
   if isinstance(e, ast.UnaryOp) and isinstance(e.op, ast.USub) and isinstance(e.operand, ast.Constant):
     return -e.operand.value == v
   return isinstance(e, ast.Constant) and e.value == v
+def _path_facts (repo, use, g, e, sw):
+  """[(facts of the branches taken, {local: last value assigned}), ...] for every feasible path from the entry to node e; None when
+  the enumeration is cut off"""
+  try: ps = q.paths_under(repo, use.module, g, q.Env(), g.entry, [e], sw, limit=300)
+  except Exception: return None
+  if not ps or len(ps) >= 300: return None
+  out = []
+  for p_, env_ in ps:
+    if p_[-1] is not e: continue
+    fl = []; defs = {}
+    for n in p_:
+      if n.kind == 'branch' and not isinstance(n.label[0], (ast.For, ast.AsyncFor)):
+        fl += [(l, o, r, None) for l, o, r in q.facts_of(n.label[0], n.label[1])]
+      elif n.ast is not None and isinstance(n.ast, ast.Assign) and len(n.ast.targets) == 1 and isinstance(n.ast.targets[0], ast.Name):
+        defs[n.ast.targets[0].id] = n.ast.value
+    out.append((fl, defs))
+  return out or None
+
 def _is_buf_slot (e):
   return isinstance(e, ast.Subscript) and isinstance(e.value, ast.Attribute) and e.value.attr == BUF
 def _subscript_index (st):
